@@ -145,13 +145,18 @@ pub fn gen_c12_data(sh: &mut Shards, o: &Opts) -> serde_json::Value {
             if w % (1 << sx) != 0 || h % (1 << sy) != 0 {
                 continue;
             }
-            for pad in [0usize, 1] {
+            // horizontal and vertical padding independently (and differently per plane)
+            for (pi, &(xp, yp)) in [(0usize, 0usize), (1, 1), (1, 0), (0, 1), (17, 0)].iter().enumerate() {
+                let pad = xp.max(yp);
                 for n in 8u8..=16 {
+                    if pi >= 2 && n % 3 != (pi as u8) % 3 {
+                        continue;
+                    }
                     let cfg = Cfg { mc: 1, tc: 1, cp: 1, full: rng.below(2) == 0, n, ssx: sx as u8, ssy: sy as u8 };
                     let g = [
-                        PlaneGeom { w, h, xdec: 0, ydec: 0, xpad: pad, ypad: pad },
-                        PlaneGeom { w: w >> sx, h: h >> sy, xdec: sx, ydec: sy, xpad: pad, ypad: pad },
-                        PlaneGeom { w: w >> sx, h: h >> sy, xdec: sx, ydec: sy, xpad: pad, ypad: pad },
+                        PlaneGeom { w, h, xdec: 0, ydec: 0, xpad: xp, ypad: yp },
+                        PlaneGeom { w: w >> sx, h: h >> sy, xdec: sx, ydec: sy, xpad: yp, ypad: xp.min(2) },
+                        PlaneGeom { w: w >> sx, h: h >> sy, xdec: sx, ydec: sy, xpad: xp, ypad: yp },
                     ];
                     let legal_max = ((1u32 << n) - 1) as u16;
                     // cells: [plane, px, py (position in the ALLOCATED array), visible-x, visible-y (or -1), value, rc]
